@@ -12,7 +12,7 @@ for mp in sorted(glob.glob(os.path.join(HERE, "seeded", "*", "meta.json"))):
     for p, c in m["checks"].items():
         ks = [k.split("|")[1] for k in c.get("classes", {}) if not k.split("|")[2]]
         kinds.append(f"{p}: {'exit ' + str(c['exit'])}" + (f" ({', '.join(sorted(set(ks)))[:70]})" if ks else ""))
-    rows.append((sid, m["breaks"], ", ".join(os.path.basename(f) for f in files), ", ".join(m.get("caught_by", [])) or "—", "yes" if m.get("strengthening", "").upper().find("MISSED") >= 0 else "", "; ".join(kinds)))
+    rows.append((sid, m["breaks"], ", ".join(os.path.basename(f) for f in files), ", ".join(m.get("caught_by", [])) or "—", "yes" if re.search(r"(?i)(?<![_a-z])missed", m.get("strengthening", "")) else "", "; ".join(kinds)))
 print("| id | property | file changed | caught by | needed strengthening | checks run |")
 print("|---|---|---|---|---|---|")
 for r in rows:
